@@ -138,7 +138,7 @@ PROPS = {
         title="expression errors contained",
         theorems={ERRORS: ["C11_next_never_raises_expr", "C11_update_never_raises_expr", "C11_render_never_raises_expr", "C11_request_never_raises_expr"], STATUS: ["tbl_failed_request_total"], SITES: ["evalSites_guarded", "evalSites_nonempty"], ERRLOG: ["C11_errors_persist"],
                   NEXTTOTAL: ["C11_next_never_raises", "C11_next_never_raises_history", "C11_error_handler_total"],
-                  RENDERFAIL: ["C11_render_failure_recorded", "C11_render_failure_offers_nothing"]},
+                  RENDERFAIL: ["C11_render_failure_recorded", "C11_render_failure_offers_nothing", "C11_plain_task_offered_or_failed"]},
         keys=["status", "errors", "staged"], offers="ids",
         prof=dict(p_badexpr=0.7, p_badtype=0.25), hist=dict(p_pause=0.05, p_cancel=0.1, p_task_pause=0.15, p_first_pending=0.1, p_rerun=0.35), monitor="C11",
         unproven=["'recorded and failed' is proved for get_next_tasks as: the failing task's entry is in the log and the call offers nothing (C11_render_failure_recorded, C11_render_failure_offers_nothing); that the resulting status is failed is proved only up to the totality of the failed request (tbl_failed_request_total), not as a postcondition of update_task_state"],
